@@ -637,6 +637,62 @@ func (c *Ctx) ruleScanTrace() {
 			return true
 		})
 	}
+	// the stack of suspended scanners is the include chain of the file being scanned, and of no other: an error about a
+	// directive of another file (still pending when an INCLUDE switched files; its own trace was captured when it was
+	// scanned and is empty for the root file) must not be given the live stack. The deferred attachment therefore has to
+	// be reached only with "the error lies in the current scanner's file" established.
+	for _, st := range f.Decl.Body.List {
+		d, isD := st.(*ast.DeferStmt)
+		if !isD {
+			continue
+		}
+		fl, isLit := d.Call.Fun.(*ast.FuncLit)
+		if !isLit {
+			continue
+		}
+		lcf := buildCFG(fl.Body)
+		ast.Inspect(fl.Body, func(n ast.Node) bool {
+			call, isC := n.(*ast.CallExpr)
+			if !isC {
+				return true
+			}
+			cal := callee(pk, call)
+			if cal == nil || cal.Name() != "AddIncludeTraceToError" {
+				return true
+			}
+			sameFile := func(cond ast.Expr, holds bool) bool {
+				be, ok := ast.Unparen(cond).(*ast.BinaryExpr)
+				if !ok || !((be.Op == token.EQL && holds) || (be.Op == token.NEQ && !holds)) {
+					return false
+				}
+				// one side: <named result>.File ; other side: a File() of the current scanner
+				errSide, scanSide := false, false
+				for _, side := range []ast.Expr{be.X, be.Y} {
+					if fld := fieldSel(pk, side); fld != nil && fld.Name() == "File" {
+						if id := identOf(ast.Unparen(side).(*ast.SelectorExpr).X); id != nil && pk.TypesInfo.Uses[id] == named {
+							errSide = true
+						}
+					}
+					if sc, ok := ast.Unparen(side).(*ast.CallExpr); ok {
+						if m := callee(pk, sc); m != nil && m.Name() == "File" {
+							if sel, ok := ast.Unparen(sc.Fun).(*ast.SelectorExpr); ok {
+								if fld := fieldSel(pk, sel.X); fld != nil && fld.Name() == "scanner" {
+									scanSide = true
+								}
+							}
+						}
+					}
+				}
+				return errSide && scanSide
+			}
+			if lcf.establishedAt(call, sameFile, nil) {
+				r.Ok("C07-SCAN-TRACE", "live stack only for the current file", "the deferred attachment is reached only when the error's file is the current scanner's file", c.pos(call.Pos()))
+			} else {
+				r.Bad("C07-SCAN-TRACE", "live stack only for the current file", "the live stack of suspended scanners is attached to whatever error scanProject returns: an error about a directive of the ROOT file that was still pending when an INCLUDE switched files (wrong context, raised at the first keyword of the included file) gets the trace 'root.jst:<line of the INCLUDE>', an include chain that was never followed", c.pos(call.Pos()))
+			}
+			return true
+		})
+	}
 	// no shadowing return that bypasses the named result is possible in Go: `return je` assigns the named result
 	if ok {
 		r.Ok("C07-SCAN-TRACE", "deferred attachment", "defer ... AddIncludeTraceToError(<named result>)", c.pos(f.Decl.Pos()))
